@@ -128,6 +128,8 @@ def precision_rule(repo, res):
 
 def run(repo, res, tier):
     res.rule("RT-READ", "every emitted element / attribute / text is looked up by the reader as the same kind at the same place", 120)
+    res.rule("RT-GUARD", "whether a value is written depends on that value only, not on a sibling attribute", 100)
+    res.rule("RT-TRUTH", "presence of an element is tested with `is None`, never by its truth value", 1)
     res.rule("RT-WRITTEN", "every schema-allowed name the reader looks up is emitted by the writer", 30)
     res.rule("RT-FLOW", "reader constructor keywords are fed from the leaves the writer fills from the corresponding attribute", 45)
     res.rule("RT-NAMEMAP", "attribute-name maps of writer and reader agree / invert each other", 40)
@@ -222,6 +224,135 @@ def run(repo, res, tier):
         if not ok and kind == "text" and not reader_has(path, "elem", None):
             continue  # the element itself is reported
         res.check("RT-READ", "writer emits %s -> reader looks it up" % what, ok, wmod, l.origin, "written but not read: %s%s" % (what, hint), "the writer emits %s but the reader never looks it up as %s there%s: the information is lost on reading" % (what, {"elem": "a child element", "attr": "an attribute", "text": "element text"}[kind], hint), qualname=l.fn)
+
+    # ---- RT-TRUTH: the reader never takes the truth value of an element for its presence.  An (l)xml element is
+    # false when it has no children, so `if node:` / `node and ..` / `not node` is wrong for every element of simple
+    # content (it is there, and counts as absent); only `is (not) None` tests presence.  Elements that always have a
+    # child by the schema are exempt: for them the two tests agree.
+    def always_has_children(tag):
+        decls = []
+        for t in list(xsd.types.values()):
+            for c in xsd.resolve_children(t):
+                if c[0] == tag:
+                    decls.append(c)
+        if not decls:
+            return None  # not an element of the format: the writer cannot emit it, no round trip goes through it
+        for c in decls:
+            ct = c[4] if c[4] is not None else xsd.types.get((c[1] or "").split(":")[-1])
+            if ct is None:
+                return False
+            kids = xsd.resolve_children(ct)
+            if not any(k[2] != "0" for k in kids):
+                return False
+        return True
+
+    n_find = 0
+    for fdef in [x for x in ast.walk(rmod.tree) if isinstance(x, ast.FunctionDef)]:
+        frd = None
+        parent = rmod.parent
+
+        def element_tag(e, at):
+            """tag literal if e denotes the result of <x>.find("tag") (directly or through one local), else None"""
+            if isinstance(e, ast.Call) and isinstance(e.func, ast.Attribute) and e.func.attr == "find" and e.args and isinstance(e.args[0], ast.Constant) and isinstance(e.args[0].value, str):
+                return e.args[0].value
+            if isinstance(e, ast.Name) and frd is not None:
+                tags = set()
+                for d in frd.defs(e.id, at):
+                    if d.node is None or d.kind != "assign":
+                        return None
+                    t = element_tag(d.node, d.stmt) if not isinstance(d.node, ast.Name) else None
+                    if t is None:
+                        return None
+                    tags.add(t)
+                if len(tags) == 1:
+                    return tags.pop()
+            return None
+
+        finds = [n for n in walk_no_nested(fdef) if isinstance(n, ast.Call) and isinstance(n.func, ast.Attribute) and n.func.attr == "find"]
+        if not finds:
+            continue
+        frd = ReachingDefs(fdef)
+        n_find += len(finds)
+        for n in walk_no_nested(fdef):
+            tests = []
+            if isinstance(n, (ast.If, ast.While, ast.IfExp, ast.Assert)):
+                tests.append(n.test)
+            elif isinstance(n, ast.BoolOp):
+                tests += n.values
+            elif isinstance(n, ast.UnaryOp) and isinstance(n.op, ast.Not):
+                tests.append(n.operand)
+            elif isinstance(n, ast.Call) and isinstance(n.func, ast.Name) and n.func.id == "bool" and n.args:
+                tests.append(n.args[0])
+            for t in tests:
+                if not isinstance(t, (ast.Name, ast.Call)):
+                    continue
+                st = t
+                while st is not None and not isinstance(st, ast.stmt):
+                    st = parent.get(st)
+                tag = element_tag(t, st)
+                if tag is None:
+                    continue
+                ok = always_has_children(tag)
+                if ok is None:
+                    res.note("RT-TRUTH: <%s> tested by truth value in %s is not an element of the schema (never written)" % (tag, rmod.qualname(fdef)))
+                    continue
+                res.check("RT-TRUTH", "%s: presence of <%s> is not tested by its truth value" % (rmod.qualname(fdef), tag), ok, rmod, t, "%s: truth value of the <%s> element" % (rmod.qualname(fdef), tag), "an element without children is false: <%s> is taken for absent although it is in the file, and what was written is not what is read" % tag, qualname=rmod.qualname(fdef))
+    if n_find < 60:
+        raise AnalysisError("only %d element look-ups found in the XML reader (60+ confirmed)" % n_find)
+    res.ok("RT-TRUTH", "%d element look-ups of the XML reader examined: none is used as a truth value where the element may have no children" % n_find)
+
+    # ---- RT-GUARD: whether a value is written depends on that value only.  Every condition an emission stands under
+    # reads (an attribute on the path to) the attribute being written; a test of a sibling attribute of the same object
+    # drops the value for objects the model allows (and the reader reads back something else than was written).
+    # Not counted: dispatch on a loop variable / parameter compared with a constant, tests of a formatting type
+    # (np.issubdtype), and `<x>.value is (not) Enum.MEMBER`, which compares a string with an enum object.
+    def _clean(a):
+        a = a.replace("ctrl:", "").strip()
+        while a.endswith("[*]"):
+            a = a[:-3]
+        return a
+
+    def _related(a, b):
+        a, b = _clean(a), _clean(b)
+        return a.startswith(b) or b.startswith(a)
+
+    def _selector(g):
+        try:
+            te = ast.parse(g[0], mode="eval").body
+        except SyntaxError:
+            return True
+        if isinstance(te, ast.Compare) and len(te.ops) == 1:
+            l_, r_ = te.left, te.comparators[0]
+            if isinstance(l_, ast.Name) and isinstance(r_, ast.Constant):
+                return True
+            if isinstance(te.ops[0], (ast.Is, ast.IsNot)) and isinstance(l_, ast.Attribute) and l_.attr == "value" and isinstance(r_, ast.Attribute):
+                return True
+        if any(isinstance(n, ast.Call) and norm(n.func) in ("np.issubdtype", "numpy.issubdtype") for n in ast.walk(te)):
+            return True
+        return False
+
+    n_guarded = 0
+    reported = set()
+    for l in wleaves:
+        if l.kind == "elem" or not l.source:
+            continue
+        parts = [x.strip() for x in l.source.split("+")]
+        if not all(_clean(x).startswith("self.") for x in parts):
+            continue
+        for g in l.guards:
+            src = [x for x in getattr(g, "src", ()) if x.startswith("self.")]
+            if not src or _selector(g):
+                continue
+            n_guarded += 1
+            ok = any(_related(ls, gs) for gs in src for ls in parts)
+            key = (g[0], g[1], l.fn)
+            if not ok and key in reported:
+                continue
+            if not ok:
+                reported.add(key)
+            res.check("RT-GUARD", "%s <- %s is written under `%s`, a test of that value" % ("/".join(l.path[-2:]), l.source, g[0]), ok, wmod, l.origin, "%s written only when %s%s" % ("/".join(l.path[-3:-1]) or "/".join(l.path), "" if g[1] else "not ", g[0]), "whether %s is written depends on %s, another attribute of the object: for objects where that test fails the value is dropped from the file" % (l.source, ", ".join(sorted(src))), qualname=l.fn)
+    if n_guarded < 100:
+        raise AnalysisError("only %d guarded emissions with a resolved source found (100+ confirmed)" % n_guarded)
 
     # ---- kind mismatch: the reader reads an attribute where schema and writer have a child element
     def xsd_type_at(path):
